@@ -3,10 +3,10 @@ From Coq Require Import ZArith.
 Open Scope Z_scope.
 
 Definition d2d_scale_sub_native : option Z := Some 0.
-Definition decbind_i8 : option Z := Some 1.
+Definition decbind_i8 : option Z := Some 0.
 Definition factorial_null : option Z := Some 0.
 Definition gcd_native : option Z := Some 0.
 Definition lcm_native : option Z := Some 0.
 Definition shr_zero_fill : option Z := Some 0.
-Definition u64_dec_precision : option Z := Some 19.
-Definition wide_dec128 : option Z := Some 0.
+Definition u64_dec_precision : option Z := Some 20.
+Definition wide_dec128 : option Z := Some 1.
